@@ -69,7 +69,8 @@ META = {
         "result and operands of the 768-bit routines are distinct objects (the C++ signatures say __restrict; call sites: C18)",
         "portable C++ with 32-bit words: the unity TU is dumped a second time with -U__SIZEOF_INT128__ (word_t = uint32_t, dword_t = uint64_t, the selection made by include/core/bigint.hpp); the 384- and 256-bit linear-layer units are re-run on that AST with the SAME contract text (the VALn readings are the same integers; only shift_right_in_word's returned bit sits at bit 31), multiply / square / Montgomery with the same word-level statements",
         "AArch64 (src/core/arch/aarch64/bigint.s, multiply.s; eight routines): WORD back end over the SOURCE TEXT -- tools/armword.py expands the .macro bodies itself and interprets ldp/stp/adds/adcs/subs/sbcs/mul/umulh/cmp/cset/b.cc (no AArch64 assembler or emulator in the sandbox, so neither the encoding nor a native run is available; the front end and the semantics table are trusted); the compare / conditional-subtract tail is proved on an abstracted state (every live word a fresh symbol, one fact T < 2p carried over), i.e. for more states than can occur",
-        "NOT covered (reported, never claimed): the CPUID probe and the run-time dispatch pointers of runtime.cpp, the ARMv6-M sources",
+        "ARMv6-M (src/core/arch/armv6_m/bigint.s, multiply.s; eight routines, Thumb-1, 32-bit words): tools/thumbword.py, source-text level as for AArch64; flag semantics of the pre-UAL syntax per the ARMv6-M ARM (16-bit data-processing instructions set the flags; MULS / EORS leave C; LSLS / LSRS set C to the last bit shifted out); a low-register `mov` makes C UNKNOWN (the two possible encodings differ) and no covered routine reads it afterwards; fpbase_384_reduce (fp.cpp -> FpBase<384>::reduce) enters through its 32-bit-word CBMC contract; one z3 process per path, fed incrementally (facts asserted once; `unsat` for a query is accepted only between echo markers)",
+        "run-time dispatch (runtime.cpp): each pointer's initialiser is `probe ? bmi2_adx_X : X` for the same operation X, after the flag, in one translation unit, and no other namespace-scope object of the library is dynamically initialised (clang AST); the CPUID probe's machine code is the expected leaf-7 / EBX[8] & EBX[19] sequence; what the CPU reports is outside",
         "bit-identity of the back ends is the corollary of every back end meeting the same deterministic postcondition"]),
     "C07": dict(level="proof", assumptions=GROUP_ASSUME + [
         "GT in the exponent view: multiply / square_cyclotomic / conjugate / inverse act as +, *2, -, - on discrete logs (C04 for the field operations; Granger-Scott squaring and conj = inverse on the cyclotomic subgroup are trusted)",
